@@ -9,6 +9,8 @@ Decided clauses (necessary conditions, see DESIGN.md §4 C01):
          feasible path, to the attribute get_params read
   C01.f  set_params never rebuilds the parameter store from the given keys alone
   C01.g  state derived from a parameter is refreshed when set_params writes it
+  C01.h  the receiver of a nested set_params is not replaced afterwards
+  C01.i  constructor defaults are immutable objects
 """
 
 from __future__ import annotations
@@ -21,7 +23,7 @@ from engine.cfg import build_cfg, forward, paths_avoiding, fmt_path
 from engine.util import is_self_attr, assign_targets, names_in, enclosing_tests, const_value, NOCONST, self_attr_stores, enclosing_stmt
 from engine import extsrc, absstr
 from engine.dataflow import ReachingDefs
-from engine.absstr import AStr, ALen, IntVal, AList, Lit, Int, Rest, Unknown, Mismatch
+from engine.absstr import AStr, ALen, IntVal, AList, Lit, Int, Rest, Ident, Unknown, Mismatch
 from .common import estimator_classes, is_sklearn_estimator, is_skbase, explicit_parent_call, resolve_call
 
 RULES = {
@@ -32,6 +34,8 @@ RULES = {
     "C01.e": "each literal key written by get_params is assigned by set_params on a feasible path to the attribute get_params read",
     "C01.f": "set_params does not rebuild the parameter store from the given keys alone",
     "C01.g": "derived state is recomputed after set_params writes its source",
+    "C01.h": "a nested set_params acts on the object that stays in the attribute: no later replacement of the receiver inside set_params",
+    "C01.i": "constructor defaults are immutable (no estimator instance, list or dict shared by all default-built instances)",
 }
 
 
@@ -399,6 +403,9 @@ def _check_value_filter(ck, gp: FunctionInfo, ci):
 
 
 # ------------------------------------------------------------------ C01.d
+DYNAMIC = "<the parameter named by the key>"
+
+
 class _Family:
     def __init__(self, prefix_segs, source_attr, indexed, stmt):
         self.prefix = prefix_segs
@@ -451,6 +458,23 @@ def _getparams_families(gp: FunctionInfo) -> List[_Family]:
                         source_attr = oi.args[0].attr
                         indexed = True
                         env[ot.elts[0].id] = IntVal("i")
+            # value of an enclosing `for name, value in <params>.items()`:
+            # every parameter that is itself an estimator (dynamic receiver)
+            if source_attr is None:
+                for outer in [n for n in own_nodes(fn) if isinstance(n, ast.For)]:
+                    if any(loop is d for d in ast.walk(outer)) and outer is not loop:
+                        ot, oi = outer.target, outer.iter
+                        if (
+                            isinstance(oi, ast.Call)
+                            and isinstance(oi.func, ast.Attribute)
+                            and oi.func.attr == "items"
+                            and isinstance(ot, ast.Tuple)
+                            and len(ot.elts) == 2
+                            and all(isinstance(e, ast.Name) for e in ot.elts)
+                            and ot.elts[1].id == recv.id
+                        ):
+                            source_attr = DYNAMIC
+                            env[ot.elts[0].id] = absstr.mk(Ident("name"))
         if source_attr is None:
             continue
         for st in ast.walk(loop):
@@ -501,10 +525,16 @@ class _Decode:
         self._block(fn.body, env, values, None)
 
     def _block(self, stmts, env, values, kname):
+        """returns True when the block ends the treatment of the current key
+        (`continue` on the decided path)."""
         for s in stmts:
             if self.rejected is not None:
-                return
-            self._stmt(s, env, values, kname)
+                return True
+            if isinstance(s, ast.Continue) and kname is not None:
+                return True
+            if self._stmt(s, env, values, kname):
+                return True
+        return False
 
     def _items_loop(self, node, values):
         it = node.iter if isinstance(node, (ast.For, ast.comprehension)) else None
@@ -551,9 +581,9 @@ class _Decode:
                 return
             t = self._eval_test(s.test, env, s)
             if t is True:
-                self._block(s.body, env, values, kname)
+                return self._block(s.body, env, values, kname)
             elif t is False:
-                self._block(s.orelse, env, values, kname)
+                return self._block(s.orelse, env, values, kname)
             else:
                 self.unknown.append((s, "cannot decide test for the abstract key"))
             return
@@ -647,6 +677,17 @@ def _setparams_receivers(sp: FunctionInfo) -> Dict[str, Tuple[str, bool]]:
     return out
 
 
+def _any_nested_set_params(sp: FunctionInfo) -> Set[str]:
+    """dict variables passed as ** to some nested `<obj>.set_params(**d)`."""
+    out = set()
+    for n in own_nodes(sp.node):
+        if isinstance(n, ast.Call) and isinstance(n.func, ast.Attribute) and n.func.attr == "set_params" and not (isinstance(n.func.value, ast.Name) and n.func.value.id == "self"):
+            for k in n.keywords:
+                if k.arg is None and isinstance(k.value, ast.Name):
+                    out.add(k.value.id)
+    return out
+
+
 def check_d(ck, repo):
     n_fam = 0
     for ci in sorted(repo.all_classes(), key=lambda c: c.qualname):
@@ -692,6 +733,9 @@ def check_d(ck, repo):
                     bad.append((st, f"decoded index is {idx!r}, expected the position i of the model", isinstance(idx, tuple)))
                     continue
                 r = recv.get(var)
+                if r is None and fam.source_attr == DYNAMIC and var in _any_nested_set_params(sp):
+                    good.append(st)
+                    continue
                 if r is None:
                     bad.append((st, f"dict '{var}' is never passed to a nested set_params", True))
                     continue
@@ -936,6 +980,88 @@ def check_g(ck, repo, rule="C01.g", only=None):
                     )
 
 
+def check_h(ck, repo):
+    """a nested `self.A.set_params(**sub)` (or `m.set_params(**p)` for m drawn
+    from self.A) must act on the object that stays in self.A: no assignment of
+    self.A may follow it inside set_params, or a call giving both the object
+    and one of its prefixed keys sends the prefixed value to the discarded
+    object."""
+    for ci in sorted(repo.all_classes(), key=lambda c: c.qualname):
+        sp = ci.methods.get("set_params")
+        if sp is None:
+            continue
+        recv = _setparams_receivers(sp)
+        if not recv:
+            continue
+        cfg = build_cfg(sp.node)
+        reach = cfg.reachable()
+        for var, (attr, _idx) in sorted(recv.items()):
+            calls = [
+                n
+                for n in cfg.nodes
+                if n.id in reach
+                and n.ast is not None
+                and n.kind in ("stmt", "return", "test")
+                and any(
+                    isinstance(c, ast.Call)
+                    and isinstance(c.func, ast.Attribute)
+                    and c.func.attr == "set_params"
+                    and any(k.arg is None and isinstance(k.value, ast.Name) and k.value.id == var for k in c.keywords)
+                    for c in ast.walk(n.ast)
+                )
+            ]
+            stores = {n.id: n for n in cfg.nodes if n.id in reach and n.kind == "stmt" and isinstance(n.ast, (ast.Assign, ast.AnnAssign, ast.AugAssign)) and any(is_self_attr(t, attr) for t in assign_targets(n.ast))}
+            for c in calls:
+                p = paths_avoiding(cfg, c, set(stores), set(), follow=lambda a, lab, b: lab != "exc") if stores else None
+                if p is None:
+                    ck.holds("C01.h", sp, c.ast, f"self.{attr} is not replaced after its nested set_params(**{var})")
+                else:
+                    ck.violated(
+                        "C01.h",
+                        sp,
+                        p[-1].ast,
+                        f"self.{attr} is replaced after `{src_of(c.ast)}`: when one call gives both '{attr}' and one of its prefixed keys, the prefixed value is set on the discarded object and get_params no longer reports it",
+                        path=fmt_path(p),
+                    )
+
+
+_IMMUTABLE_CALLS = {"tuple", "frozenset", "float", "int", "str", "bool"}
+
+
+def _immutable_default(d: ast.AST) -> bool:
+    if isinstance(d, ast.Constant):
+        return True
+    if isinstance(d, ast.UnaryOp):
+        return _immutable_default(d.operand)
+    if isinstance(d, ast.Tuple):
+        return all(_immutable_default(e) for e in d.elts)
+    if isinstance(d, (ast.Name, ast.Attribute)):
+        return True  # a module-level constant, function or type: shared by design
+    if isinstance(d, ast.BinOp):
+        return _immutable_default(d.left) and _immutable_default(d.right)
+    if isinstance(d, ast.Call) and isinstance(d.func, ast.Name) and d.func.id in _IMMUTABLE_CALLS:
+        return all(_immutable_default(a) for a in d.args)
+    return False
+
+
+def check_i(ck, repo):
+    """constructor defaults are evaluated once: an estimator instance, list or
+    dict there is one object shared by every default-built instance, so a nested
+    set_params on one instance changes what the others report."""
+    for ci in estimator_classes(repo):
+        init = ci.methods.get("__init__")
+        if init is None:
+            continue
+        a = init.node.args
+        pos = a.posonlyargs + a.args
+        pairs = list(zip(pos[len(pos) - len(a.defaults) :], a.defaults)) + [(x, d) for x, d in zip(a.kwonlyargs, a.kw_defaults) if d is not None]
+        for arg, d in pairs:
+            if _immutable_default(d):
+                ck.holds("C01.i", init, f"{arg.arg}={src_of(d)}", "immutable default", nontrivial=False)
+            else:
+                ck.violated("C01.i", init, f"{arg.arg}={src_of(d)}", f"{ci.name}.__init__: the default of '{arg.arg}' is a mutable object created once at definition time and shared by all default-built instances: set_params({arg.arg}__...=) on one instance changes the parameters of the others")
+
+
 def run(ck):
     repo = ck.repo
     for k, v in RULES.items():
@@ -947,6 +1073,8 @@ def run(ck):
     check_e(ck, repo)
     check_f(ck, repo)
     check_g(ck, repo)
+    check_h(ck, repo)
+    check_i(ck, repo)
     ck.extra["estimator_classes"] = len(estimator_classes(repo))
     ck.extra["key_families"] = nf
     # vacuity guards (instance counts confirmed by hand on the pinned tree)
@@ -954,6 +1082,8 @@ def run(ck):
     ck.require_count("C01.b", 2, "SkBase, SkBaseTransformLearner, SkBaseTransformStacking, ClassifierAfterKMeans")
     ck.require_count("C01.d", 2, "model__, models_{i}__, c_, e_")
     ck.require_count("C01.e", 2, "model/method and models/method literal keys")
+    ck.require_count("C01.h", 2, "nested set_params of the learner, the stacking and ClassifierAfterKMeans")
+    ck.require_count("C01.i", 80, "constructor defaults of the estimator classes")
 
 
 # ---------------------------------------------------------------- self-test
@@ -978,6 +1108,9 @@ WITNESSES = [
     {"name": "interval-param-swapped", "file": "mlinsights/mlmodel/interval_regressor.py", "rule": "C01.a", "old": "        self.n_jobs = n_jobs\n", "new": "        self.n_jobs = n_estimators\n"},
     {"name": "kmeansl1-forward-swapped", "file": "mlinsights/mlmodel/kmeans_l1.py", "rule": "C01.a", "old": "            n_init=n_init,\n            max_iter=max_iter,", "new": "            n_init=max_iter,\n            max_iter=n_init,"},
     {"name": "quantile-param-modified", "file": "mlinsights/mlmodel/quantile_regression.py", "rule": "C01.a", "old": "        self.delta = delta\n", "new": "        self.delta = max(delta, 1e-6)\n"},
+    {"name": "cak-replace-after-nested", "file": _K, "rule": "C01.h", "old": '        self.clus.set_params(**pc)\n        self.estimator.set_params(**pe)\n', "new": '        self.clus.set_params(**pc)\n        self.estimator.set_params(**pe)\n        if "estimator_" in values:\n            self.estimator = values["estimator_"]\n'},
+    {"name": "piecewise-shared-default", "file": "mlinsights/mlmodel/piecewise_estimator.py", "rule": "C01.i", "old": "    def __init__(self, binner=None, estimator=None, n_jobs=None, verbose=False):\n        if estimator is None:\n            estimator = LinearRegression()", "new": "    def __init__(self, binner=None, estimator=LinearRegression(), n_jobs=None, verbose=False):\n        if estimator is None:\n            estimator = LinearRegression()"},
+    {"name": "cak-skip-literal-keys-then-late-store", "file": _K, "rule": "C01.h", "old": '        self.clus.set_params(**pc)\n', "new": '        self.clus.set_params(**pc)\n        self.clus = self.clus\n'},
     {"name": "ar-estimator-conditional", "file": "mlinsights/timeseries/ar.py", "rule": "C01.a", "old": "        else:\n            self.estimator = estimator\n", "new": ""},
 ]
 TWINS = [
@@ -985,6 +1118,7 @@ TWINS = [
     {"name": "stacking-use-split-result", "file": _S, "old": "pars[i][k[d + len(si[0]) + 2 :]] = v", "new": "pars[i][si[1]] = v"},
     {"name": "skbase-merge-literal", "file": _B, "old": "        params = self.P.to_dict()\n        params.update(values)\n        self.P = SkLearnParameters(**params)\n", "new": "        merged = dict(self.P.to_dict())\n        merged.update(values)\n        self.P = SkLearnParameters(**merged)\n"},
     {"name": "cak-pop-to-del", "file": _K, "old": '            self.estimator = values.pop("estimator")\n', "new": '            self.estimator = values["estimator"]\n            del values["estimator"]\n'},
+    {"name": "cak-skip-object-keys-in-loop", "file": _K, "old": "        for k, v in values.items():\n            if k.startswith(\"e_\"):", "new": "        for k, v in values.items():\n            if k in (\"estimator\", \"clus\"):\n                continue\n            if k.startswith(\"e_\"):"},
     {"name": "dtlr-init-default-inline", "file": "mlinsights/mlmodel/decision_tree_logreg.py", "old": "        if estimator is None:\n            self.estimator = LogisticRegression()\n        else:\n            self.estimator = estimator\n", "new": "        if estimator is None:\n            estimator = LogisticRegression()\n        self.estimator = estimator\n"},
 ]
 MIN_WITNESSES = 10
